@@ -726,7 +726,9 @@ class DFunction(Saveable, DataSaveable):
                 for k in range(0, t.length-1):
                     yy[w.length-k-1] = numpy.conj(y[k+1])
 
-                Y = 2.0*numpy.fft.fftshift(numpy.fft.fft(yy))*t.step
+                # numpy.fft.fft is not normalized: no factor of the
+                # number of points (2*t.length) is needed here
+                Y = numpy.fft.fftshift(numpy.fft.fft(yy))*t.step
 
             else:
                 raise Exception("Unknown axis type"
